@@ -325,6 +325,19 @@ def rules(ck, P):
                 if n is gets[0]:
                     chain = [p for p in parents[-3:]]
                     oku = any(p.get("k") == "mcall" and p.get("name") in ("ok_or_else", "ok_or", "context", "with_context") for p in chain) and any(p.get("k") == "try" for p in chain)
+                    # the same decision spelled as a match / if let / let-else whose `None` side leaves with Err
+                    def leaves_err(x):
+                        return x is not None and ir.diverges(x) and ir.contains(x, lambda y: y.get("k") == "ret" and y.get("e") is not None and
+                                                                                ir.contains(y["e"], lambda z: z.get("k") == "call" and (z.get("q") or "").endswith("Result::Err::{Ctor#0}")))
+                    par = parents[-1] if parents else {}
+                    if par.get("k") == "match" and par.get("e") is n:
+                        none_arms = [a for a in par["arms"] if a["pat"].get("k") == "wild" or "Option::None" in (a["pat"].get("q") or (a["pat"].get("e") or {}).get("q") or "")]
+                        some_arms = [a for a in par["arms"] if "Option::Some" in (a["pat"].get("q") or "")]
+                        oku = oku or (len(par["arms"]) == 2 and len(none_arms) == 1 and len(some_arms) == 1 and leaves_err(none_arms[0]["body"]))
+                    if par.get("k") == "let" and par.get("init") is n and "els" in par and "Option::Some" in (par["pat"].get("q") or ""):
+                        oku = oku or leaves_err(par["els"])
+                    if par.get("k") == "letx" and par.get("init") is n and "Option::Some" in (par["pat"].get("q") or "") and len(parents) >= 2 and parents[-2].get("k") == "if":
+                        oku = oku or leaves_err(parents[-2].get("else"))
             a0_ = ir.strip(gets[0]["a"][0])
             while a0_ is not None and a0_.get("k") in ("ref", "mcall") and a0_.get("k") != "field":
                 a0_ = ir.strip(a0_.get("e") or a0_.get("recv"))
